@@ -10,18 +10,19 @@ DEPENDS = {
                                    "a parse that fails part-way must leave the message decodable again (raw body restored "
                                    "as received, not in a half-decoded form)"),
             "C13": (["R2"], "LLQuaternion variables are decoded through Quaternion.__init__: it must keep the wire components")},
-    "C02": {"C01": (["R1", "R2", "R3", "R4", "R5", "R6", "R7", "R8", "R11"],
+    "C02": {"C01": (["R1", "R2", "R3", "R4", "R5", "R6", "R7", "R8", "R11", "R15"],
                     "a parsed body is re-encoded through the codec: pass-through fidelity needs codec agreement"),
             "C03": (["R1", "R2"], "canonical zero-coding is what makes re-encoding byte-identical")},
     "C03": {},
     "C04": {"C07": (["R3"], "a finalized message must never be translated twice (stability of the wire id)"),
             "C05": (["R2"], "every ack rewrite must go through the inverse translation (no bypass)")},
-    "C05": {"C01": (["R4"], "acks are carried by the header flag / trailer the codec frames")},
+    "C05": {"C01": (["R4"], "acks are carried by the header flag / trailer the codec frames"),
+            "C07": (["R5"], "no second road to the wire: every emitted datagram went through prepare_message, where ids and acks are translated")},
     "C06": {"C01": (["R1", "R4", "R6", "R7", "R8"], "a datagram that cannot be framed/parsed cannot be forwarded intact; "
                                                     "re-encoded content needs value-preserving pack/unpack pairs"),
             "C03": (["R1", "R2"], "forwarded re-encoded messages are zero-coded by zero_code_compress"),
             "C02": (["R1", "R2"], "forwarded content intact = raw body pass-through, also after a failed parse"),
-            "C07": (["R3", "R5"], "exactly once on the wire"),
+            "C07": (["R3", "R5", "R10"], "exactly once on the wire; code run for every datagram outside a try must not raise"),
             "C05": (["R8"], "a datagram can only be forwarded on the region's circuit: the reference must not be "
                             "released or replaced while the region is live")},
     "C07": {"C06": (["R4"], "the final forward is guarded by nothing but the addon/validity verdicts"),
@@ -36,7 +37,9 @@ DEPENDS = {
             "C10": (["R1", "R3", "R4"], "pretty-printed quantised / fixed-point subfields must re-encode exactly")},
     "C12": {"C18": (["R6", "R12"], "LLSDMessageSerializer ends in Message.from_dict / to_dict: key agreement; reals are "
                                    "written at full precision by every LLSD formatter")},
-    "C13": {"C10": (["R1"], "packed rotations: the adapter around the quantiser must not compute on the value"),
+    "C13": {"C10": (["R1", "R3"], "packed rotations: the adapter around the quantiser must not compute on the value; the particle-system "
+                                  "sections are fixed-point fields whose clamp must enclose the decoded wire range, or the re-encoded "
+                                  "payload differs"),
             "C08": (["R1", "R2", "R3", "R6", "R7", "R8", "R9", "R10", "R11", "R12", "R13", "R14", "R15", "R16"], "both decoders share the combinator sub-templates")},
     "C14": {"C13": (["R1", "R2"], "the tracker consumes the hand-written compressed decoder"),
             "C07": (["R2"], "handlers run under Event.notify's isolation")},
@@ -44,7 +47,8 @@ DEPENDS = {
             "C16": (["R7"], "a flow returning from the HTTP proxy process must get its region/session re-attached")},
     "C16": {},
     "C17": {"C12": (["R1"], "event-queue messages are decoded by LLSDMessageSerializer (no aliasing / stale memo)")},
-    "C18": {"C12": (["R1"], "logged EQ events are decoded by LLSDMessageSerializer without mutating the retained event")},
+    "C18": {"C12": (["R1"], "logged EQ events are decoded by LLSDMessageSerializer without mutating the retained event"),
+            "C01": (["R15"], "a frozen / thawed or exported entry is a deferred message: its body must still parse when asked")},
     "C19": {"C01": (["R4", "R6", "R8"], "a packet whose header cannot be parsed is neither acked nor delivered"),
             "C07": (["R2"], "delivery to each subscriber needs Event.notify's isolation")},
     "C20": {"C08": (["R1", "R2", "R3", "R8", "R9", "R10", "R11", "R12", "R13", "R14", "R15", "R16"], "mesh and animation codecs are built from the combinators"),
